@@ -122,6 +122,17 @@ func zzH02iface() {
 			zzAssert(ifi.MaxInterval == 0 && ifi.MinInterval == 0 && ifi.DefaultLifetime == 0 && ifi.HopLimit == 0 && len(ifi.Plugins) == 0, "monitor-interface-has-no-advertising-settings")
 		}
 	}
+	// every interface of a group has its own plugin objects: they hold
+	// per-interface state once prepared (hardware address, address source)
+	for i := range ifis {
+		for j := i + 1; j < len(ifis); j++ {
+			for k := range ifis[i].Plugins {
+				if k < len(ifis[j].Plugins) {
+					zzAssert(ifis[i].Plugins[k] != ifis[j].Plugins[k], "interfaces-of-a-group-do-not-share-plugin-state")
+				}
+			}
+		}
+	}
 }
 
 // ---- file level: the TOML decoder and the resolver are environment ----
